@@ -49,8 +49,12 @@ def scenarios(tier, seed):
   for parents in space.trees_upto(n):
     for joints in space.joint_assignments(parents):
       out.append(dict(fam="jac", parents=list(parents), joints=list(joints), variant=variant))
-  from mc.props import c05
+  from mc.props import c01, c05
 
+  for wrap in c01.WRAPS:
+    for arm in c01.ARMS:
+      for chunk in range(3):
+        out.append(dict(fam="wrap", wrap=wrap, arm=arm, chunk=chunk, variant=variant))
   trees = space.trees(3)
   seen = set()
 
@@ -330,5 +334,48 @@ def exec_rows(scn):
   return c.result(nontrivial=nontriv, key=util.sha(scn), info=dict(nv=int(nv), nu=int(nu), ntendon=int(nt), rows=nrows, checked=c.nchecked))
 
 
+def exec_wrap(scn):
+  """ten_J and the moment of a tendon actuator for a tendon that wraps a geom carried by a moving body (models of C01's
+  wrapmove family): equal to MuJoCo's and to float64 finite differences of ten_length along every dof."""
+  import mujoco
+
+  import mujoco_warp as mjw
+  from mc.props import c01
+
+  xml = c01._wrapmove_xml(scn).replace("</mujoco>", '<actuator><general name="at" tendon="tw" gear="-1.3"/></actuator></mujoco>')
+  mjm = util.load(xml)
+  m = mjw.put_model(mjm)
+  d = mjw.make_data(mjm, nworld=1)
+  c = util.Cmp()
+  nv = mjm.nv
+  wrapped = 0
+  grid = list(itertools.product(c01.WRAP_GRID, repeat=3))
+  for k, a in enumerate(grid):
+    if k % 3 != scn["chunk"]:
+      continue
+    v = np.zeros(nv)
+    v[-2:] = a[1:]
+    v[0 if scn["arm"] != "free" else 4] = a[0] * (0.2 if scn["arm"] == "shh" else 1.0)
+    if scn["arm"] == "hbh":
+      v[:] = [a[0], 0.6 * a[1], 0.0, 0.8 * a[1], a[2]]
+    q = np.array(mjm.qpos0)
+    mujoco.mj_integratePos(mjm, q, v, 1.0)
+    base = _perturbed(mujoco, mjm, q, None, 0.0, tendon=True)
+    wrapped += int(base.ten_wrapnum[0] == 4)
+    h = 1e-6
+    fd = np.array([(_perturbed(mujoco, mjm, q, i, h, True).ten_length[0] - _perturbed(mujoco, mjm, q, i, -h, True).ten_length[0]) / (2 * h) for i in range(nv)])
+    util.copy_state(base, d)
+    mjw.fwd_position(m, d)
+    J = _ten_J_dense(m, d, 0, 1, nv)[0]
+    Jm = _mj_dense_rows(mjm, np.asarray(base.ten_J), mjm.ten_J_rownnz, mjm.ten_J_rowadr, mjm.ten_J_colind, 1)[0] if np.asarray(base.ten_J).size != nv else np.asarray(base.ten_J).reshape(-1)
+    pre = f"wrap {scn['wrap']} arm {scn['arm']} pose {k}: "
+    c.close(pre + "ten_J vs finite differences of ten_length", J, fd, 1e-4, vkey="wrap:ten_J_vs_fd")
+    c.close(pre + "ten_J vs MuJoCo", J, Jm, "f32", vkey="wrap:ten_J_vs_mujoco")
+    c.close(pre + "actuator_moment vs gear*fd", _moment_dense(m, d, 0, 1, nv)[0], -1.3 * fd, 1e-4, vkey="wrap:actuator_moment_vs_fd")
+  return c.result(nontrivial=wrapped > 0, key=util.sha(scn), info=dict(wrapped=wrapped))
+
+
 def execute(scn):
+  if scn["fam"] == "wrap":
+    return exec_wrap(scn)
   return exec_jac(scn) if scn["fam"] == "jac" else exec_rows(scn)
